@@ -243,9 +243,17 @@ def check_sweep(kind, arg):
         gen.init(arg["center"])
     exp = [tuple(v) for v in gen.generate()]
     alg = SweepAlgorithm(problem, generator=gen)
+    for name, value in (arg.get("options") or {}).items():
+        # options every algorithm inherits; a sweep evaluates the generator's designs whatever they say
+        alg.options[name] = value
     desc = "sweep %s %r" % (kind, arg)
     try:
-        alg.run()
+        if (arg.get("options") or {}).get("max_processes", 1) > 1:
+            from ..core.sched import default_parallel
+            with default_parallel():
+                alg.run()
+        else:
+            alg.run()
     except Exception as e:
         return [("C05:sweep:exception:%s" % type(e).__name__, "run raised %r; %s" % (e, desc))]
     got = [c[1] for c in problem.h_log]
@@ -386,6 +394,12 @@ def _shard(shard, col: Collector):
         for n in (1, 2, 3):
             for vs in itertools.product(lat, repeat=n):
                 rec("sweep", {"kind": "custom", "arg": {"vectors": vs}}, check_sweep("custom", {"vectors": vs}))
+        for opts in ({"max_population_size": 2, "max_population_number": 3}, {"max_population_size": 1, "max_population_number": 1},
+                     {"max_population_size": 3, "max_population_number": 2, "max_processes": 2}, {"max_population_number": 1}, {"max_population_size": 4}):
+            for n in (1, 2, 5, 7, 9):
+                vs = tuple(lat[i % 3] if i < 3 else (0.1 * i, -0.2 * i) for i in range(n))
+                rec("sweep", {"kind": "custom", "arg": {"vectors": vs, "options": opts}}, check_sweep("custom", {"vectors": vs, "options": opts}))
+            rec("sweep", {"kind": "uniform", "arg": {"k": 3, "nparams": 3, "options": opts}}, check_sweep("uniform", {"k": 3, "nparams": 3, "options": opts}))
         for nparams in (1, 2, 3):
             for k in (2, 3):
                 rec("sweep", {"kind": "uniform", "arg": {"k": k, "nparams": nparams}}, check_sweep("uniform", {"k": k, "nparams": nparams}))
